@@ -53,7 +53,8 @@ class FlatApi:
         if r.random() < 0.6:      # a field whose name has another field's name as textual prefix (name / name_suffix, name / names)
             m.field(r.choice(["name_suffix", "names"]), n, "string"); n += 1
         for nm in r.sample(["title", "count", "ratio", "flag", "blob", "size", "code"], r.randint(2, 4)):
-            m.field(nm, n, r.choice(SCALAR_POOL)); n += 1
+            # some fields carry google.api.field_behavior = REQUIRED: the declared order of a method signature does not depend on it
+            m.field(nm, n, r.choice(SCALAR_POOL), required=r.random() < 0.35); n += 1
         if r.random() < 0.6:   # real oneofs must be declared before the synthetic ones of proto3 optional fields
             m.field("choice_a", n, "string", oneof="choice"); n += 1
             m.field("choice_b", n, "int32", oneof="choice"); n += 1
@@ -64,7 +65,7 @@ class FlatApi:
         m.field("kind", n, ("enum", en)); n += 1
         if r.random() < 0.5:
             m.field("kinds", n, ("enum", en), repeated=True); n += 1
-        m.field("tags", n, "string", repeated=True); n += 1
+        m.field("tags", n, "string", repeated=True, required=r.random() < 0.2); n += 1
         m.field("nums", n, r.choice(["int32", "int64", "uint32", "double"]), repeated=True); n += 1
         m.map_field("labels", n, r.choice(["string", "int32", "bool", "int64"]), r.choice(["string", "int32", "bytes", "bool"])); n += 1
         if self.reserved:
